@@ -1472,6 +1472,30 @@ def rule_optchain_spine(check):
 REMOVERS = {"split_off", "remove", "clear", "drain", "truncate", "pop", "swap_remove", "retain", "take", "dedup", "dedup_by", "dedup_by_key"}
 
 
+def _param_view(f, b, depth=0):
+    """is binding b a parameter, or a view into one (bound by a pattern / a let over a place rooted in a
+    parameter: `match expr { Expr::Array(array) => ..` with expr: &mut Expr)"""
+    o = b["origin"]
+    if o[0] == "param":
+        return True
+    if depth > 6 or o[0] not in ("match", "let") or o[1] is None:
+        return False
+    src = hir.peel_transparent(o[1])
+    while src.get("k") == "MethodCall" and src["method"] in ("as_mut", "as_deref_mut", "as_mut_slice", "iter_mut", "unwrap", "expect", "as_mut_array", "as_mut_expr"):
+        src = hir.peel_transparent(src["recv"])
+    pl = hir.place(src) or ""
+    root = pl.split(".")[0]
+    if "#" not in root or not root.split("#")[1].isdigit():
+        return False
+    b2 = f.bindings().get(int(root.split("#")[1]))
+    if b2 is None or b2 is b:
+        return False
+    # an owned local (a clone, a fresh node) is the transform's own
+    if o[0] == "let" and hir.peel(o[1]).get("k") in ("Call", "MethodCall") and hir.peel(o[1]) is src:
+        return False
+    return _param_view(f, b2, depth + 1)
+
+
 def rule_input_untouched(check):
     """INPUT-UNTOUCHED (C01, C02): a transform builds its result next to the input; it never takes parts
     out of the node it was handed, because every transform can still decide not to instrument"""
@@ -1488,11 +1512,26 @@ def rule_input_untouched(check):
             root = pl.split(".")[0]
             lid = int(root.split("#")[1]) if "#" in root and root.split("#")[1].isdigit() else None
             b = f.bindings().get(lid) if lid is not None else None
-            if b is None or b["origin"][0] != "param":
+            if b is None or not _param_view(f, b):
                 continue
             ty = hir.peel(n["recv"]).get("ty") or ""
             if "swc_ecma_ast" not in ty and "swc_ecma_ast" not in (b.get("ty") or ""):
                 continue
+            if n["method"] == "drain":
+                # `x.elems = x.elems.drain(..).map(f).collect()`: every element is put back, in order
+                chain, cur = [], n
+                while True:
+                    par = f.parent(cur)
+                    while par is not None and par.get("k") not in ("MethodCall", "Assign", "Block", "Let") and hir.peel(par) is hir.peel(cur):
+                        cur, par = par, f.parent(par)
+                    if par is not None and par.get("k") == "MethodCall" and hir.peel(par["recv"]) is hir.peel(cur):
+                        chain.append(par["method"])
+                        cur = par
+                        continue
+                    break
+                if par is not None and par.get("k") == "Assign" and hir.place(par["l"]) == pl and chain and chain[-1] == "collect" and set(chain[:-1]) <= {"map", "inspect"} and not hir.call_args(n)[1:2] == [] and "RangeFull" in (hir.peel(hir.call_args(n)[1]).get("ty") or ""):
+                    check.ok(R, "%s/%s/drain-refill" % (R, f.name), hir.loc(n), "drain(..) mapped element by element and collected back into the same place")
+                    continue
             check.bad(R, "%s/%s/%s" % (R, f.name, n["method"]), hir.loc(n), "%s() takes parts out of `%s`, a node handed in by the caller: on every path where %s then answers `not modified` the caller keeps - and prints - the node without them" % (n["method"], re.sub(r"#\d+", "", pl), f.name))
     check.floor(R, "transform functions inspected", n_fn, 20)
     check.ok(R, R + "/inventory", "-", "no removing / moving call on a parameter-rooted AST place in %d transform functions" % n_fn)
